@@ -24,6 +24,7 @@ RULE = (
     "at least one tamper evaluated; distinct by spec."
     ' Passphrases with combining marks / compatibility code points, their NFC/NFD/NFKC/NFKD/casefolded forms tried as wrong passphrases; the dictionary obtained before unlocking must show the unlocked entries.'
 )
+RULE += ' Round 10: the empty passphrase; a fresh parse of the same text after an unlock must start locked.'
 ASSUMPTIONS = [
     "tampering is applied to the decoded binary fields and re-encoded (base64/URL decoders' tolerance is not part of the property)",
     "only the pair that wraps the real key is tampered with: altering an unrelated decoy pair legitimately changes nothing",
